@@ -195,22 +195,23 @@ def dump(doc, path, flow=None):
                        default_flow_style=flow)
 
 
-_TMP = None
+_TMP = {}
 
 
 def tmpdir():
-    global _TMP
-    if _TMP is None or not os.path.isdir(_TMP):
-        _TMP = tempfile.mkdtemp(prefix="nvf_")
-    return _TMP
+    """per-process scratch directory (forked shards must not share one)"""
+    pid = os.getpid()
+    d = _TMP.get(pid)
+    if d is None or not os.path.isdir(d):
+        d = _TMP[pid] = tempfile.mkdtemp(prefix="nvf_")
+    return d
 
 
 def cleanup():
-    global _TMP
-    if _TMP and os.path.isdir(_TMP):
-        import shutil
-        shutil.rmtree(_TMP, ignore_errors=True)
-    _TMP = None
+    import shutil
+    d = _TMP.pop(os.getpid(), None)
+    if d and os.path.isdir(d):
+        shutil.rmtree(d, ignore_errors=True)
 
 
 def doc_from_json(j):
